@@ -651,6 +651,10 @@ def install(ip):
 
     @fn("callable")
     def _callable(ip, a, k):
+        if isinstance(a[0], Opaque) and a[0].kind == "callable":
+            return True
+        if isinstance(a[0], PObj) and isinstance(a[0].cls, ClassInfo):
+            return ip.class_attr_raw(a[0].cls, "__call__")[0]
         return isinstance(a[0], (FuncVal, BoundMethod, Builtin, ClassInfo, BuiltinClass))
 
     @fn("range")
@@ -1043,8 +1047,16 @@ def install(ip):
             return Sym(r, "bytes")
         return Builtin(name, f)
     mod("base64", b64encode=_b64("b64encode"), b64decode=_b64("b64decode"))
+    mod("weakref", WeakValueDictionary=B["dict"], ref=Opaque("weakref.ref"))
+    mod("secrets", randbelow=Builtin("secrets.randbelow", lambda ip, a, k: _randbelow(ip, a[0])),
+        token_bytes=Builtin("secrets.token_bytes", lambda ip, a, k: _urandom(ip, a[0])))
     mod("threading", RLock=Builtin("RLock", lambda ip, a, k: _NullCtx()), Lock=Builtin("Lock", lambda ip, a, k: _NullCtx()))
     mod("math", ceil=Opaque("math.ceil"), floor=Opaque("math.floor"), log=Opaque("math.log"), sqrt=Opaque("math.sqrt"))
+
+    def _randbelow(ip, n):
+        r = ip.fresh("randbelow", "int")
+        ip.path.assume(z3.And(r.t >= 0, r.t < ip.to_z3(n, "int")))
+        return r
 
     def _urandom(ip, n):
         r = ip.fresh("urandom", "bytes")
@@ -1224,7 +1236,15 @@ def install(ip):
         r = g(b.t)
         ip.path.assume(2 * z3.Length(r) == z3.Length(b.t))
         return Sym(r, "bytes")
-    mod("binascii", hexlify=Builtin("hexlify", _hexlify), unhexlify=Builtin("unhexlify", _unhexlify),
+    def _crc32(ip, a, k):
+        b = a[0]
+        if isinstance(b, bytes):
+            import binascii
+            return binascii.crc32(b)
+        r = ufun("crc32", zu.BytesS, zu.IntS)(b.t)
+        ip.path.assume(z3.And(r >= 0, r < 2 ** 32))
+        return ip.wrap(r, "int")
+    mod("binascii", crc32=Builtin("crc32", _crc32), hexlify=Builtin("hexlify", _hexlify), unhexlify=Builtin("unhexlify", _unhexlify),
         Error=ip.exc_classes["binascii.Error"])
 
     # hashlib (A6)
